@@ -275,9 +275,11 @@ def _xml_attr(s):
     return s.replace("&", "&amp;").replace('"', "&quot;").replace("<", "&lt;")
 
 
-def materialise(plan, root, fragment=None):
+def materialise(plan, root, fragment=None, twin=False):
     """Write the scenario under *root*.  *fragment* = kind of reference that
-    gets a '#frag' appended (fragment-identifier case)."""
+    gets a '#frag' appended (fragment-identifier case).  *twin*: the same
+    layout with different content (markers 'T-...', one more schema type), so
+    that the same RELATIVE name means another file from another directory."""
     for d in plan["dirs"]:
         os.makedirs(os.path.join(root, d), exist_ok=True)
     for rel, content in plan["files"].items():
@@ -293,6 +295,8 @@ def materialise(plan, root, fragment=None):
                         t += "#frag"
                         first = False
                     out.append("%include " + t)
+                elif twin and ln.startswith("k "):
+                    out.append("k T-" + ln[2:])
                 else:
                     out.append(ln)
             text = "\n".join(out) + "\n"
@@ -312,6 +316,8 @@ def materialise(plan, root, fragment=None):
                     out.append('  <import src="%s"/>' % _xml_attr(t))
                 elif "%s" in ln:
                     out.append(ln % ext)
+                    if twin and rel == plan["schema_top"]:
+                        out.append('  <sectiontype name="twinmark"/>')
                 else:
                     out.append(ln)
             text = "\n".join(out) + "\n"
@@ -351,17 +357,18 @@ def execute(plan):
            "violations": [], "waste": 0, "log": []}
     if plan["kind"] == "url-helpers":
         return url_helpers(plan, out)
-    root = tempfile.mkdtemp(prefix="zcsim-c18-")
-    root = os.path.realpath(root)
+    scratch = tempfile.mkdtemp(prefix="zcsim-c18-")
+    scratch = os.path.realpath(scratch)
     try:
-        _execute(plan, out, root)
+        _execute(plan, out, os.path.join(scratch, "A"),
+                 os.path.join(scratch, "B"), scratch)
     finally:
         os.chdir("/")
-        shutil.rmtree(root, ignore_errors=True)
+        shutil.rmtree(scratch, ignore_errors=True)
     return out
 
 
-def _execute(plan, out, root):
+def _execute(plan, out, root, root_b, scratch):
     def probe(name, n=1):
         out["probes"][name] = out["probes"].get(name, 0) + n
 
@@ -369,18 +376,21 @@ def _execute(plan, out, root):
         out["violations"].append({
             "sig": "C18|%s|%s" % (clause, what),
             "key": {"clause": clause, "what": what},
-            "detail": detail.replace(root, "$SCRATCH"), "plan": plan})
+            "detail": detail.replace(scratch, "$SCRATCH"), "plan": plan})
 
+    os.makedirs(root)
+    os.makedirs(root_b)
     materialise(plan, root)
+    materialise(plan, root_b, twin=True)
     cwd = "/" if plan["cwd"] == "/" else os.path.join(root, plan["cwd"])
-    decoy_paths = {os.path.realpath(os.path.join(root, d))
-                   for d in plan["decoys"]}
-    with SimWorld(realfs=True, scratch=root) as w:
+    decoy_paths = {os.path.realpath(os.path.join(r, d))
+                   for d in plan["decoys"] for r in (root, root_b)}
+    with SimWorld(realfs=True, scratch=scratch) as w:
         os.chdir(cwd)
 
-        def check_io(what, entry, expected, ordered):
+        def check_io(what, entry, expected, ordered, base=root):
             opened = [_real(u) for u in w.opened]
-            exp = [os.path.realpath(os.path.join(root, p)) for p in expected]
+            exp = [os.path.realpath(os.path.join(base, p)) for p in expected]
             if entry.startswith("file-"):
                 exp = exp[1:]
             hit = [p for p in opened if p in decoy_paths]
@@ -463,6 +473,66 @@ def _execute(plan, out, root):
                           "configuration by %s gives %r, expected %r"
                           % (entry, o["got"], want))
             check_io("config", entry, plan["config_order"], True)
+        # ---- chdir to the twin tree: the same relative names, other files ----
+        if plan["cwd"] != "/":
+            cwd_b = os.path.join(root_b, plan["cwd"])
+            sfull_b = os.path.join(root_b, plan["schema_top"])
+            cfull_b = os.path.join(root_b, plan["config_top"])
+            want_b = {"k": ["T-" + x for x in plan["expect_k"]],
+                      "s": [[n, ["T-" + x for x in ks]]
+                            for n, ks in plan["expect_s"]]}
+            for where, cw, cf, sf, wnt, base in (
+                    ("twin", cwd_b, cfull_b, sfull_b, want_b, root_b),
+                    ("back", cwd, cfull, sfull, want, root)):
+                os.chdir(cw)
+                for entry in ("rel-path", "file-rel"):
+                    w.begin_op("config:%s:%s" % (where, entry))
+
+                    def run2():
+                        cfg, _h = _enter(
+                            entry, cf,
+                            lambda u: ZConfig.loadConfig(schema, u),
+                            lambda f: ZConfig.loadConfigFile(schema, f))
+                        return {"ok": True, "got": {
+                            "k": list(cfg.k),
+                            "s": [[x.getSectionName(), list(x.k)]
+                                  for x in cfg.s]}}
+                    o = ops.guarded(run2)
+                    w.end_op("ok" if o["ok"] else o["cls"])
+                    out["evaluations"] += 1
+                    if not o["ok"]:
+                        violation("load-failed", "config-after-chdir",
+                                  "after chdir (%s) configuration by %s "
+                                  "raised %s" % (where, entry, ops.brief(o)))
+                        continue
+                    if o["got"] != wnt:
+                        violation("wrong-result", "config-after-chdir",
+                                  "after chdir (%s) configuration by %s gives "
+                                  "%r, expected %r" % (where, entry, o["got"],
+                                                       wnt))
+                    check_io("config-after-chdir", entry,
+                             plan["config_order"], True, base)
+                w.begin_op("schema:%s:rel-path" % where)
+                so = ops.schema_outcome(lambda: ZConfig.loadSchema(
+                    os.path.relpath(sf)))
+                w.end_op("ok" if so["ok"] else so["cls"])
+                out["evaluations"] += 1
+                wt = sorted(plan["types"] + (["twinmark"] if where == "twin"
+                                             else []))
+                if not so["ok"]:
+                    violation("load-failed", "schema-after-chdir",
+                              "after chdir (%s) schema by relative path "
+                              "raised %s" % (where, ops.brief(so)))
+                elif sorted(so["digest"]["types"]) != wt:
+                    violation("wrong-result", "schema-after-chdir",
+                              "after chdir (%s) schema by relative path has "
+                              "types %r, expected %r"
+                              % (where, sorted(so["digest"]["types"]), wt))
+                else:
+                    check_io("schema-after-chdir", "rel-path",
+                             plan["schema_files"], False, base)
+            probe("chdir-to-twin-tree")
+            os.chdir(cwd)
         probe("cwd:" + ("outside" if plan["cwd"] in ("/", "outside")
                         else "inside"))
         if any(ord(c) > 127 for p in plan["files"] for c in p):
